@@ -576,6 +576,30 @@ def lockstep_sharded(ctx, bin_path, drv, cases, nshards=16, env=None, drv_args=(
         bad_total = retry_resource_failures(ctx, bin_path, drv, lookup, bad_total, env=env, drv_args=drv_args,
                                             impl_args=impl_args, timeout=timeout, tag=tag)
         ok_total += n0 - len(bad_total)
+    # a watchdog verdict ("did not terminate") is confirmed before it counts: the case is run again on its own,
+    # after all shards have finished, with a nine times longer limit; a case that was merely slow next to
+    # 15 other shards passes then (and is counted as passed); a real non-termination still hits the limit
+    if "-hangretry" not in tag and any("did not terminate (watchdog)" in m for _, m in bad_total):
+        lookup = {h.split()[0]: (h, ops) for h, ops in cases}
+        base_ms = int((env or {}).get("VERIF_HANG_MS", os.environ.get("VERIF_HANG_MS", "20000")))
+        env2 = dict(env or {}, VERIF_HANG_MS=str(max(180000, 9 * base_ms)))
+        kept, real = [], 0
+        for cid, msg in bad_total:
+            # (once two cases are confirmed as real non-terminations the remaining ones are kept as reported)
+            if "did not terminate (watchdog)" in msg and cid in lookup and real < 2:
+                ok1, bad1, dig1 = lockstep_sharded(ctx, bin_path, drv, [lookup[cid]], nshards=1, env=env2, drv_args=drv_args,
+                                                   impl_args=impl_args, timeout=timeout, tag=tag + "-hangretry")
+                if not bad1:
+                    ok_total += 1
+                    digests.update(dig1)
+                    ctx.add_stat("watchdog_verdicts_not_confirmed", 1)
+                    log(f"case {cid}: watchdog verdict not confirmed (terminates when run alone)")
+                    continue
+                real += 1
+                kept += bad1
+                continue
+            kept.append((cid, msg))
+        bad_total = kept
     return ok_total, bad_total, digests
 
 
